@@ -251,6 +251,27 @@ class SeqMixin:
             if s.step is None and s.start is None and s.stop is None:
                 fz = obj.frozen_copy()
                 return SList(fz.n, lambda k: self.slist_read(fz, k, raw=True), obj.is_tuple)
+            step = 1 if s.step is None else s.step
+            if isinstance(step, int) and step in (1, -1) and all(
+                    x is None or (is_intlike(x) and not isinstance(x, bool)) for x in (s.start, s.stop)):
+                # Python's slice.indices(n) for step +1 / -1: bounds are shifted by n when negative and clamped
+                fz = obj.frozen_copy()
+                n = zint(fz.n)
+                def clamp(v, lo, hi):
+                    v = zint(v)
+                    v = z3.If(v < 0, v + n, v)
+                    return z3.If(v < lo, lo, z3.If(v > hi, hi, v))
+                if step == 1:
+                    lo = z3.IntVal(0) if s.start is None else clamp(s.start, z3.IntVal(0), n)
+                    hi = n if s.stop is None else clamp(s.stop, z3.IntVal(0), n)
+                    m = concretize(z3.simplify(z3.If(hi > lo, hi - lo, 0)))
+                    lo_c = concretize(z3.simplify(lo))
+                    return SList(m, lambda k: self.slist_read(fz, concretize(zint(lo_c) + zint(k)), raw=True), obj.is_tuple)
+                lo = (n - 1) if s.start is None else clamp(s.start, z3.IntVal(-1), n - 1)
+                hi = z3.IntVal(-1) if s.stop is None else clamp(s.stop, z3.IntVal(-1), n - 1)
+                m = concretize(z3.simplify(z3.If(lo > hi, lo - hi, 0)))
+                lo_c = concretize(z3.simplify(lo))
+                return SList(m, lambda k: self.slist_read(fz, concretize(zint(lo_c) - zint(k)), raw=True), obj.is_tuple)
             raise Unsupported('slice of symbolic list')
         r = self.ext_getitem(obj, s)
         if r is not NOTIMPL:
